@@ -144,8 +144,9 @@ CHECKS = {
               'For submit_sm/deliver_sm the round trip is a theorem for messages without optional parameters whose text travels in '
               'short_message, for every in-range assignment of the seventeen mandatory fields and every alphabet for which the codec '
               'and the SMPP time format round trip (sm_round_trip_short, those facts as explicit hypotheses; sm_round_trip_gsm with none '
-              'left: default alphabet GSM 03.38, automatic encoding, any text over the alphabet up to 254 octets). With optional '
-              'parameters, message_payload or a UDH the round trip is NOT a theorem: it is decided by the octet-for-octet '
+              'left: default alphabet GSM 03.38, automatic encoding, any text over the alphabet up to 254 octets; sm_round_trip_gsm_payload: '
+              'the same with the text in message_payload up to 65535 octets; time_facts_abs/rel discharge the time hypotheses from C17). '
+              'With optional parameters or a UDH the round trip is NOT a theorem: it is decided by the octet-for-octet '
               'correspondence of the model encoder and decoder with the code plus the round-trip predicate on generated '
               'messages (all alphabets, boundary lengths 0/254/255, TLVs of every value type, both time forms, payload).'),
         note=COMMON_NOTE + 'CPython codecs other than gsm0338/gsm0338_packed/ucs2/ascii/latin_1 and registered error handlers are opaque (not judged). Text outside the chosen alphabet under a lossy error mode, and an explicit gsm0338 encoding differing from the configured default, are outside the round-trip domain (see DESIGN.md).',
